@@ -17,6 +17,7 @@ type vEndingHandler struct {
 	body    []byte
 	err     error
 	respHdr string
+	early   bool
 }
 
 func (h *vEndingHandler) ServeHTTP(w http.ResponseWriter, r *http.Request) {
@@ -24,6 +25,9 @@ func (h *vEndingHandler) ServeHTTP(w http.ResponseWriter, r *http.Request) {
 	switch h.mode {
 	case 0:
 		w.Header()["X-Custom"] = []string{h.respHdr}
+		if h.early {
+			w.WriteHeader(103) // informational response (Early Hints) before the final header block
+		}
 		w.WriteHeader(h.status)
 		w.Write(h.body)
 	case 1:
@@ -50,6 +54,9 @@ func HarnessAccessLog() {
 	vAssert(err == nil, "log: target builds")
 	t.state = TargetStateHealthy
 	eh := &vEndingHandler{t: t, mode: vChoose("ending", 4), status: vIntRange("status", 200, 599), respHdr: vString("resp_hdr", 2)}
+	if eh.mode == 0 {
+		eh.early = vChoose("early_hints", 2) == 1
+	}
 	if eh.mode == 1 {
 		eh.err = vMakeErr(vChoose("errkind", vNumKinds))
 	} else if eh.mode != 2 {
